@@ -82,6 +82,11 @@ func NewCollection(idIndex bool) *Collection {
 
 // Find will look up the documents that match the specified query.
 func (c *Collection) Find(query, sort bsonkit.Doc, skip, limit int) (*Result, error) {
+	// check skip
+	if skip < 0 {
+		return nil, fmt.Errorf("skip must not be negative")
+	}
+
 	// get documents
 	list := c.Documents.List
 
@@ -224,6 +229,11 @@ func (c *Collection) Replace(query, repl, sort bsonkit.Doc) (*Result, error) {
 // Update will look up all documents that match the specified query and update
 // them according to the update document.
 func (c *Collection) Update(query, update, sort bsonkit.Doc, skip, limit int, arrayFilters bsonkit.List) (*Result, error) {
+	// check skip
+	if skip < 0 {
+		return nil, fmt.Errorf("skip must not be negative")
+	}
+
 	// get documents
 	list := c.Documents.List
 
@@ -408,6 +418,11 @@ func (c *Collection) Upsert(query, repl, update bsonkit.Doc, arrayFilters bsonki
 
 // Delete will remove all documents that match the specified query.
 func (c *Collection) Delete(query, sort bsonkit.Doc, skip, limit int) (*Result, error) {
+	// check skip
+	if skip < 0 {
+		return nil, fmt.Errorf("skip must not be negative")
+	}
+
 	// get documents
 	list := c.Documents.List
 
